@@ -21,13 +21,20 @@ RULE = ('cases = (backend, initial flags, 2-4 sessions on INBOX, history of '
         'sets \\Seen)/IDLE with generated sync points). Non-trivial = the '
         'history contains a stale access (a command that addressed a UID '
         'another session had already expunged) or two different sessions '
-        'changed the same message between two sync points; distinct by case '
-        'hash.')
+        'changed the same message between two sync points; or (burst cases: '
+        'maildir on the threading subsystem, up to 10 rounds in which 2-4 '
+        'sessions each send one command before the loop runs) a round in '
+        'which at least two commands were in flight together; distinct by '
+        'case hash.')
 ASSUMPTIONS = ['a session learns the UIDs of newly announced positions with a '
                'non-UID FETCH n:m (UID), as clients do after EXISTS',
                'only system flags are generated (keywords are per-session '
-               'on these backends and are covered by C10/C17)']
-BUDGET = {'quick': (150, 16), 'thorough': (2500, 16)}
+               'on these backends and are covered by C10/C17)',
+               'burst cases run on real worker threads: the interleaving is '
+               'the operating system\'s, the oracles used there hold for '
+               'every interleaving, a failure is recorded without shrinking '
+               'and its replay may need several runs']
+BUDGET = {'quick': (200, 16), 'thorough': (2500, 16)}
 
 OPS = ['append', 'store', 'store', 'store', 'expunge', 'expunge',
        'uidexpunge', 'copy', 'move', 'fetch', 'fetch', 'noop', 'idle', 'done',
@@ -46,8 +53,7 @@ def strategy(tier: str) -> Any:
         'rounds': st.lists(st.lists(cmd, min_size=2, max_size=4),
                            min_size=1, max_size=10),
     })
-    return st.one_of(_owned(max_steps), _owned(max_steps),
-                     _owned(max_steps), burst)
+    return st.one_of(_owned(max_steps), _owned(max_steps), burst)
 
 
 def _owned(max_steps: int) -> Any:
